@@ -420,3 +420,40 @@ func DatePool(r *rand.Rand, lo, hi cal.Day, n int) []cal.Day {
 	sort.Slice(res, func(a, b int) bool { return res[a] < res[b] })
 	return res
 }
+
+// ShiftFar moves every directive dated on or after a randomly chosen journal
+// date (never the first) three hundred to some thousand years into the future,
+// keeping the order of dates (choices = how many of the four distances may be drawn): the journal then mixes ordinary dates with dates
+// beyond 2262-04-11, where nanosecond timestamps no longer fit 64 bits.
+func ShiftFar(r *rand.Rand, j *Journal, choices int) {
+	seen := map[cal.Day]bool{}
+	var dates []cal.Day
+	for _, d := range j.Dirs {
+		if !seen[d.Date] {
+			seen[d.Date] = true
+			dates = append(dates, d.Date)
+		}
+	}
+	if len(dates) < 2 {
+		return
+	}
+	sort.Slice(dates, func(a, b int) bool { return dates[a] < dates[b] })
+	pivot := dates[1+r.Intn(len(dates)-1)]
+	if choices < 1 || choices > 4 {
+		choices = 4
+	}
+	delta := []cal.Day{102269, 213633, 1000000, 2700000}[r.Intn(choices)] // +280, +585, +2738, +7392 years
+	for i := range j.Dirs {
+		d := &j.Dirs[i]
+		if d.Date < pivot {
+			continue
+		}
+		d.Date += delta
+		if d.Accrual != nil {
+			a := *d.Accrual
+			a.Start += delta
+			a.End += delta
+			d.Accrual = &a
+		}
+	}
+}
